@@ -220,6 +220,222 @@ static uint64_t run_lp_core(const TinyLP& lp, const XLP& x, const Classification
    return h;
 }
 
+// ---- shipped instances (check/instances/*.mps) -------------------------------------------------------------------------------------
+// The file is read once by a reader object; the harness copies the LP out through the accessors (sparse rows of exact rationals),
+// enters THAT copy into a fresh object through addColReal/addRowReal and solves it under the configuration.  Reference: the value in
+// check/testset/quick.solu (the suite's own, independent of this tree) or its verdict "infeasible" / "unbounded".
+// Certificate tolerance: 1e-5 = ten times the feasibility / optimality tolerance, because SoPlex tests the tolerances on the scaled LP
+// (measured on the unchanged tree: all residuals <= 1e-8 except dual sign conditions up to 6.1e-7 on etamacro); defects of the kind this
+// phase is for (wrong sign, wrong exponent, stale vector) are orders of magnitude above that.
+struct SparseLP
+{
+   int n = 0, m = 0;
+   bool maximize = false;
+   double offset = 0;
+   std::vector<double> c, lo, up, lhs, rhs;
+   std::vector<std::vector<std::pair<int, double>>> rows;
+};
+static std::string repo_dir() { const char* e = getenv("VERIF_REPO"); return e && *e ? e : "/repo"; }
+static bool read_instance(const std::string& name, SparseLP& L)
+{
+   SoPlex rd;
+   quiet(rd);
+   std::ostringstream sink;                               // the MPS reader writes its "entry ignored" warnings straight to std::cerr
+   std::streambuf* oldbuf = std::cerr.rdbuf(sink.rdbuf());
+   bool okread = rd.readFile((repo_dir() + "/check/instances/" + name).c_str());
+   std::cerr.rdbuf(oldbuf);
+   if(!okread) return false;
+   L.n = rd.numCols(); L.m = rd.numRows();
+   L.maximize = rd.intParam(SoPlex::OBJSENSE) == SoPlex::OBJSENSE_MAXIMIZE;
+   L.offset = rd.realParam(SoPlex::OBJ_OFFSET);
+   L.c.resize(L.n); L.lo.resize(L.n); L.up.resize(L.n); L.lhs.resize(L.m); L.rhs.resize(L.m); L.rows.assign(L.m, {});
+   for(int j = 0; j < L.n; ++j) { L.c[j] = rd.objReal(j); L.lo[j] = rd.lowerReal(j); L.up[j] = rd.upperReal(j); }
+   for(int i = 0; i < L.m; ++i)
+   {
+      L.lhs[i] = rd.lhsReal(i); L.rhs[i] = rd.rhsReal(i);
+      DSVector r;
+      rd.getRowVectorReal(i, r);
+      for(int k = 0; k < r.size(); ++k) L.rows[i].push_back({r.index(k), r.value(k)});
+   }
+   return true;
+}
+// reference from quick.solu: 0 = optimal value in `val`, 1 = infeasible, 2 = unbounded, -1 = not listed
+static int solu_reference(const std::string& base, double& val)
+{
+   std::ifstream in(repo_dir() + "/check/testset/quick.solu");
+   std::string tag, nm, v;
+   while(in >> tag >> nm >> v)
+      if(nm == base)
+      {
+         if(v == "infeasible") return 1;
+         if(v == "unbounded") return 2;
+         val = strtod(v.c_str(), 0);
+         return 0;
+      }
+   return -1;
+}
+static std::string judge_instance(const SparseLP& L, const RealResult& r, int ref, double refval, bool ensureray, std::string& why, Ctx* c)
+{
+   const double TOL = 1e-5;
+   int n = L.n, m = L.m, st = r.status;
+   if(g_prop == "C01")
+   {
+      if(ref != 0) return "";
+      if(st != 1) { why = std::string("instance has the finite optimum ") + TinyLP::num(refval) + " but status is " + status_name(st); return std::string("finite-optimum-not-solved:") + status_name(st); }
+      if(!r.hasPrimal || !r.hasDual) { why = "OPTIMAL without primal / dual vectors"; return "optimal-without-primal"; }
+      Q tol = q_of_double(TOL);
+      std::vector<Q> x(n), d(n), aty(n, Q(0));
+      for(int j = 0; j < n; ++j) { if(!std::isfinite(r.x[j]) || !std::isfinite(r.d[j])) { why = "non-finite entry"; return "nonfinite-solution"; } x[j] = q_of_double(r.x[j]); d[j] = q_of_double(r.d[j]); }
+      int sg = L.maximize ? -1 : 1;
+      for(int j = 0; j < n; ++j)
+      {
+         if(L.lo[j] > -INF && x[j] < q_of_double(L.lo[j]) - tol) { why = "x" + std::to_string(j) + " below lower"; return "primal-bound-violated"; }
+         if(L.up[j] < INF && x[j] > q_of_double(L.up[j]) + tol) { why = "x" + std::to_string(j) + " above upper"; return "primal-bound-violated"; }
+      }
+      for(int i = 0; i < m; ++i)
+      {
+         if(!std::isfinite(r.s[i]) || !std::isfinite(r.y[i])) { why = "non-finite entry"; return "nonfinite-solution"; }
+         Q act = 0, y = q_of_double(r.y[i]);
+         for(auto& pr : L.rows[i]) { Q a = q_of_double(pr.second); act += a * x[pr.first]; aty[pr.first] += a * y; }
+         if(qabs(act - q_of_double(r.s[i])) > tol) { why = "slack " + std::to_string(i) + " != activity"; return "slack-not-activity"; }
+         if(L.lhs[i] > -INF && act < q_of_double(L.lhs[i]) - tol) { why = "row " + std::to_string(i) + " below lhs"; return "row-side-violated"; }
+         if(L.rhs[i] < INF && act > q_of_double(L.rhs[i]) + tol) { why = "row " + std::to_string(i) + " above rhs"; return "row-side-violated"; }
+         Q v = y * sg;
+         if(v < -tol && !(L.rhs[i] < INF)) { why = "dual sign of row " + std::to_string(i) + " needs finite rhs"; return "dual-sign"; }
+         if(v > tol && !(L.lhs[i] > -INF)) { why = "dual sign of row " + std::to_string(i) + " needs finite lhs"; return "dual-sign"; }
+      }
+      Q cx = q_of_double(L.offset);
+      for(int j = 0; j < n; ++j)
+      {
+         Q cj = q_of_double(L.c[j]);
+         if(qabs(cj - aty[j] - d[j]) > tol) { why = "redcost " + std::to_string(j) + " != c - A^T y"; return "stationarity-violated"; }
+         Q v = d[j] * sg;
+         if(v < -tol && !(L.up[j] < INF)) { why = "redcost sign of col " + std::to_string(j) + " needs finite upper"; return "redcost-sign"; }
+         if(v > tol && !(L.lo[j] > -INF)) { why = "redcost sign of col " + std::to_string(j) + " needs finite lower"; return "redcost-sign"; }
+         cx += cj * x[j];
+      }
+      double cxd = cx.get_d();
+      if(fabs(r.obj - cxd) > 1e-7 * (1 + fabs(cxd))) { why = "objValue " + TinyLP::num(r.obj) + " != c x + offset " + TinyLP::num(cxd); return "objective-mismatch"; }
+      if(fabs(r.obj - refval) > 1e-6 * (1 + fabs(refval))) { why = "objective " + TinyLP::num(r.obj) + " != reference optimum " + TinyLP::num(refval); return "objective-not-optimal"; }
+      if(c) c->count("instance_certificates_checked");
+      return "";
+   }
+   // C02
+   if(ref == 0 && st == 3) { why = "INFEASIBLE returned for an instance with a finite optimum"; return "infeasible-on-feasible-lp"; }
+   if(ref == 2 && st == 3) { why = "INFEASIBLE returned for an unbounded (hence feasible) instance"; return "infeasible-on-feasible-lp"; }
+   if(ref == 0 && (st == 2 || st == 4)) { why = std::string(status_name(st)) + " returned for an instance with a finite optimum"; return "unbounded-on-lp-with-optimum"; }
+   if(ref > 0 && st == 1) { why = "OPTIMAL returned for an instance without a finite optimum"; return "optimal-on-lp-without-optimum"; }
+   if(ensureray)
+   {
+      if(st == 3 && !r.hasFarkas) { why = "ENSURERAY: INFEASIBLE without Farkas vector"; return "ensureray-no-farkas"; }
+      if(st == 2 && !r.hasRay) { why = "ENSURERAY: UNBOUNDED without primal ray"; return "ensureray-no-ray"; }
+   }
+   if(r.hasFarkas)
+   {
+      // interval separation in exact arithmetic; entries / column combinations below 1e-9 of the largest entry count as zero (as in check_farkas)
+      double mx = 0;
+      for(double v : r.farkas) { if(!std::isfinite(v)) { why = "non-finite Farkas entry"; return "farkas-invalid"; } mx = std::max(mx, fabs(v)); }
+      if(mx == 0) { why = "zero Farkas vector"; return "farkas-invalid"; }
+      std::vector<Q> t(n, Q(0));
+      Q slo = 0, sup = 0, xlo = 0, xup = 0;
+      bool sloF = true, supF = true, xloF = true, xupF = true;
+      double colscale = 0;
+      for(int i = 0; i < m; ++i)
+      {
+         if(fabs(r.farkas[i]) < 1e-9 * mx) continue;
+         Q y = q_of_double(r.farkas[i]);
+         for(auto& pr : L.rows[i]) { t[pr.first] += q_of_double(pr.second) * y; colscale = std::max(colscale, fabs(pr.second * r.farkas[i])); }
+         double a = y > 0 ? L.lhs[i] : L.rhs[i], b = y > 0 ? L.rhs[i] : L.lhs[i];
+         if(fabs(a) < INF) slo += y * q_of_double(a); else sloF = false;
+         if(fabs(b) < INF) sup += y * q_of_double(b); else supF = false;
+      }
+      Q eps = q_of_double(1e-9 * std::max(mx, colscale));
+      for(int j = 0; j < n; ++j)
+      {
+         if(qabs(t[j]) < eps) continue;
+         double a = t[j] > 0 ? L.lo[j] : L.up[j], b = t[j] > 0 ? L.up[j] : L.lo[j];
+         if(fabs(a) < INF) xlo += t[j] * q_of_double(a); else xloF = false;
+         if(fabs(b) < INF) xup += t[j] * q_of_double(b); else xupF = false;
+      }
+      bool sep = (supF && xloF && xlo > sup) || (xupF && sloF && slo > xup);
+      if(c) c->count(sep ? "instance_farkas_valid" : "instance_farkas_not_separating");
+      if(!sep) { why = "Farkas vector does not separate y^T A x from y^T s on the instance"; return "farkas-invalid"; }
+   }
+   if(r.hasRay)
+   {
+      double mx = 0;
+      for(double v : r.ray) { if(!std::isfinite(v)) { why = "non-finite ray entry"; return "ray-invalid"; } mx = std::max(mx, fabs(v)); }
+      if(mx == 0) { why = "zero ray"; return "ray-invalid"; }
+      std::vector<Q> rr(n);
+      for(int j = 0; j < n; ++j) rr[j] = fabs(r.ray[j]) < 1e-9 * mx ? Q(0) : q_of_double(r.ray[j]);
+      for(int j = 0; j < n; ++j)
+      {
+         if(L.lo[j] > -INF && rr[j] < 0) { why = "ray decreases col " + std::to_string(j) + " with finite lower"; return "ray-invalid"; }
+         if(L.up[j] < INF && rr[j] > 0) { why = "ray increases col " + std::to_string(j) + " with finite upper"; return "ray-invalid"; }
+      }
+      for(int i = 0; i < m; ++i)
+      {
+         Q t = 0; double sc = 0;
+         for(auto& pr : L.rows[i]) { t += q_of_double(pr.second) * rr[pr.first]; sc = std::max(sc, fabs(pr.second * r.ray[pr.first])); }
+         if(qabs(t) < q_of_double(1e-9 * std::max(mx, sc))) continue;
+         if(L.lhs[i] > -INF && t < 0) { why = "ray decreases row " + std::to_string(i) + " with finite lhs"; return "ray-invalid"; }
+         if(L.rhs[i] < INF && t > 0) { why = "ray increases row " + std::to_string(i) + " with finite rhs"; return "ray-invalid"; }
+      }
+      Q cr = 0;
+      for(int j = 0; j < n; ++j) cr += q_of_double(L.c[j]) * rr[j];
+      if(L.maximize ? !(cr > 0) : !(cr < 0)) { why = "ray does not improve the objective"; return "ray-invalid"; }
+      if(c) c->count("instance_rays_valid");
+   }
+   return "";
+}
+static std::string solve_instance(const SparseLP& L, const ConfigSpace::Cfg& cfg, int ref, double refval, std::string& why, RealResult& r, Ctx* c)
+{
+   SoPlex spx;
+   quiet(spx);
+   g_cs.apply(spx, cfg);
+   spx.setIntParam(SoPlex::OBJSENSE, L.maximize ? SoPlex::OBJSENSE_MAXIMIZE : SoPlex::OBJSENSE_MINIMIZE);
+   spx.setRealParam(SoPlex::OBJ_OFFSET, L.offset);
+   DSVector empty(0);
+   for(int j = 0; j < L.n; ++j) spx.addColReal(LPCol(L.c[j], empty, L.up[j], L.lo[j]));
+   for(int i = 0; i < L.m; ++i)
+   {
+      DSVector row((int)L.rows[i].size());
+      for(auto& pr : L.rows[i]) row.add(pr.first, pr.second);
+      spx.addRowReal(LPRow(L.lhs[i], row, L.rhs[i]));
+   }
+   try { spx.optimize(); }
+   catch(const SPxException& e) { why = e.what(); return "exception-from-optimize"; }
+   fetch(spx, r);
+   g_pstag = "";
+   if(c) { c->count(std::string("instance_status.") + status_name(r.status)); c->count("instance_iterations", r.iters); }
+   return judge_instance(L, r, ref, refval, g_cs.value(cfg, "ensureray") == 1, why, c);
+}
+static uint64_t run_instance(const std::string& name, const ConfigSpace::Cfg& cfg, Ctx& c)
+{
+   SparseLP L;
+   std::string cs = "N:" + name + "#" + g_cs.str(cfg);
+   if(!read_instance(name, L)) { c.violation("harness-error:instance-unreadable", cs, "readFile failed for " + name); return 0; }
+   double refval = 0;
+   int ref = solu_reference(name.substr(0, name.find('.')), refval);
+   if(ref < 0) { c.count("instances_without_reference"); return 0; }
+   std::string why;
+   RealResult r;
+   std::string rule = solve_instance(L, cfg, ref, refval, why, r, &c);
+   c.count("solves");
+   c.count("instance_solves");
+   if(!rule.empty())
+      c.violation(rule + "@" + g_cs.str(cfg) + "+instance[" + name.substr(0, name.find('.')) + "]", cs, why + " | status=" + status_name(r.status) + " obj=" + TinyLP::num(r.obj) + " iters=" + std::to_string(r.iters));
+   else if(c.wantSample()) c.sample("{\"instance\":" + jstr(name) + ",\"config\":" + jstr(g_cs.str(cfg)) + ",\"status\":" + jstr(status_name(r.status)) + ",\"objective\":" + jstr(TinyLP::num(r.obj)) + ",\"iterations\":" + std::to_string(r.iters) + "}");
+   if((g_prop == "C01") == (ref == 0) && r.iters > 0) c.count("nontrivial_instance_solves");
+   return digest(r);
+}
+static const char* INSTANCES[] = {"adlittle.mps", "afiro.mps", "agg.mps", "beaconfd.mps", "blend.mps", "bore3d.mps", "brandy.mps", "capri.mps", "etamacro.mps", "finnis.mps", "grow7.mps",
+                                  "israel.mps", "kb2.mps", "lotfi.mps", "recipe.mps", "sc105.mps", "sc205.mps", "sc50a.mps", "sc50b.mps", "scagr25.mps", "scagr7.mps", "scfxm1.mps",
+                                  "scorpion.mps", "scrs8.mps", "scsd1.mps", "seba.mps", "share1b.mps", "share2b.mps", "shell.mps", "vtp-base.mps", "gas11.mps", "bgetam.mps", "box1.mps",
+                                  "ex72a.mps", "forest6.mps", "galenet.mps", "gams10am.mps", "klein1.mps", "refinery.mps", "woodinfe.mps"
+                                 };
+static const int NINST = sizeof(INSTANCES) / sizeof(INSTANCES[0]);
+
 // curated micro-family: one LP per structural class (for the complete configuration product)
 static std::vector<TinyLP> micro_family()
 {
@@ -271,6 +487,8 @@ static std::vector<TinyLP> micro_family()
    return v;
 }
 
+static RunOpts o3n(Report& rep) { RunOpts o = rep.opts(); o.perturb = {85}; o.watchdog_s = 300; return o; }
+
 int main(int argc, char** argv)
 {
    Args args = parse_args(argc, argv);
@@ -291,6 +509,11 @@ int main(int argc, char** argv)
       size_t h = cs.find('#');
       ConfigSpace::Cfg cfg = g_cs.parse(h == std::string::npos ? "default" : cs.substr(h + 1));
       mallopt(M_PERTURB, 85);
+      if(cs.compare(0, 2, "N:") == 0)
+      {
+         std::string nm = cs.substr(2, h - 2);
+         return replay_case([&](Ctx & c) { run_instance(nm, cfg, c); });
+      }
       PlantedSpec psp;
       if(cs.compare(0, 2, "P:") == 0 && PlantedSpec::parse(cs.substr(0, h), psp))
          return replay_case([&](Ctx & c) { run_planted(psp, {cfg}, c); });
@@ -386,6 +609,14 @@ int main(int argc, char** argv)
          return run_planted(pg.at(idx), cfg1, c, pass == 0);
       }, [&](uint64_t idx, uint64_t sub) { return pg.at(idx).str() + "#" + (sub < cfg1.size() ? g_cs.str(cfg1[sub]) : std::string("default")); }, o, sigsfx(&cfg1));
       rep.extra["planted_grid"] = jstr("sizes (n x m) 4x3 5x8 8x5 10x10 16x12 12x20 24x24 40x25 30x40 40x40; densities 15/40/100 %; degenerate 0/1; min/max; kinds OPT/INF/UNB; seeds 0.." + std::to_string(pg.seeds - 1));
+   }
+   {
+      // phase N: the 40 shipped MPS instances of the pinned suite x all configurations with <= 1 deviation (the suite itself runs 12 settings and compares one number)
+      rep.phase("shipped instances x dev<=1", (uint64_t)NINST * cfg1.size(), [&](uint64_t idx, int, Ctx & c) -> uint64_t
+      {
+         return run_instance(INSTANCES[idx / cfg1.size()], cfg1[idx % cfg1.size()], c);
+      }, [&](uint64_t idx, uint64_t) { return std::string("N:") + INSTANCES[idx / cfg1.size()] + "#" + g_cs.str(cfg1[idx % cfg1.size()]); }, o3n(rep),
+      [&](uint64_t idx, uint64_t) { return "@" + g_cs.str(cfg1[idx % cfg1.size()]) + "+instance[" + std::string(INSTANCES[idx / cfg1.size()]).substr(0, std::string(INSTANCES[idx / cfg1.size()]).find('.')) + "]"; });
    }
    if(thorough)
    {
